@@ -437,6 +437,16 @@ def c06_total_check(case):
         ok = False
     except Exception as e:  # noqa: BLE001
         return f'configure raised {type(e).__name__}: {e}'
+    # the public entry point succeeds and fails with configure (same graph, top and model)
+    try:
+        penman.encode(g, top=top, model=m)
+        ok_pub = True
+    except penman.exceptions.LayoutError:
+        ok_pub = False
+    except Exception:  # noqa: BLE001
+        ok_pub = ok         # formatting problems of odd atoms are not this clause's business
+    if ok_pub != ok:
+        return f'encode {"succeeded" if ok_pub else "raised LayoutError"} where configure {"succeeded" if ok else "raised LayoutError"}'
     if not g.triples or not push_vars_ok(g):
         return None
     t = top if top is not None else g.top
